@@ -282,13 +282,14 @@ func main() {
 	if os.Getenv("VERIF_WORKER") == "" {
 		// parts B-D run in the coordinator process (no scheduler involved)
 		rangeTaskPart(run, extra)
+		deleteRangeTopologyPart(run, extra, run.Tier == "thorough")
 		safePointPart(run, extra)
 	}
 	res := sched.RunSharded(jobs, budget)
 	common.Finish(run, jobs, res, common.FinishOpts{
 		Bounds: map[string]any{"faults": F, "scan_limits": []int{1, 2, 3}, "keys": keys, "range_task": extra},
 		Rule: "A: two victim transactions (shapes x lock modes x commit protocols) crashed at every combination of seam events within the fault budget (each crash and each split costs one), then tikv.ResolveLocksForRange as an actor with scan limit 1..3 and an optional region split before any ScanLock/ResolveLock RPC; after a successful pass: no lock <= safe point anywhere, versions committed before are unchanged, every victim all-or-nothing with one commit ts and consistent with its acknowledgement. " +
-			"B: rangetask.Runner.RunOnRange with a recording handler over all layouts of <= 3 split keys x all (start,end) incl. unbounded x concurrency {1,3} x regions-per-task {1,2} x failing sub-range index; C: DeleteRangeTask over the same grid against a map model; D: snapshot Get/BatchGet/Iter at ts in {sp-1, sp, sp+1} after UpdateTxnSafePointCache(sp). distinct_nontrivial = distinct (victim outcomes, crash/split positions) classes",
+			"B: rangetask.Runner.RunOnRange with a recording handler over all layouts of <= 3 split keys x all (start,end) incl. unbounded x concurrency {1,3} x regions-per-task {1,2} x failing sub-range index; C: DeleteRangeTask over the same grid against a map model; C2: DeleteRangeTask on 8 keys over all layouts x ranges x concurrency {1,3} with one (thorough: two) region split(s) injected at the RPC seam right before the first DeleteRange request whose range strictly contains the split key is delivered (the store answers EpochNotMatch and the task must retry that piece), exactly the keys of [start,end) removed; D: snapshot Get/BatchGet/Iter at ts in {sp-1, sp, sp+1} after UpdateTxnSafePointCache(sp). distinct_nontrivial = distinct (victim outcomes, crash/split positions) classes",
 		Assumptions: []string{
 			"GC starts only after every transaction below the safe point has ended or crashed (the GC contract)",
 			"a GC pass that reports an error is not judged (the property speaks about a successful GC)",
@@ -428,6 +429,124 @@ func rangeTaskPart(run *ev.Run, extra map[string]any) {
 	}
 	extra["range_task_cases"] = cases
 	extra["delete_range_cases"] = delCases
+}
+
+// ---- part C2: delete range while the topology changes under the task ----
+
+// deleteRangeTopologyPart: for every layout x range x concurrency, one (thorough: two) region
+// split(s) injected at the RPC seam right before the first DeleteRange request whose range
+// strictly contains the split key is delivered - i.e. between the task's region lookup and
+// the store seeing the request, so that the store answers a region error and the task has
+// to retry that piece. Oracle: exactly the keys of [start, end) are gone.
+func deleteRangeTopologyPart(run *ev.Run, extra map[string]any, thorough bool) {
+	pool := []string{"a", "ab", "b", "bb", "c", "cc", "d", "dd"}
+	bounds := []string{"", "a", "b", "bb", "c", "d", "e"}
+	cands := []string{"ab", "b", "bb", "c", "cc", "d", "dd"}
+	cases, fired := 0, 0
+	for mask := 0; mask < 8; mask++ {
+		var lo []string
+		for i, k := range []string{"b", "c", "d"} {
+			if mask&(1<<i) != 0 {
+				lo = append(lo, k)
+			}
+		}
+		var plans [][]string
+		for _, k1 := range cands {
+			if contains(lo, k1) {
+				continue
+			}
+			plans = append(plans, []string{k1})
+			if thorough {
+				for _, k2 := range cands {
+					if k2 != k1 && !contains(lo, k2) {
+						plans = append(plans, []string{k1, k2})
+					}
+				}
+			}
+		}
+		for _, s := range bounds {
+			for _, e := range bounds {
+				if e != "" && s >= e {
+					continue
+				}
+				for _, conc := range []int{1, 3} {
+					for _, plan := range plans {
+						cases++
+						if deleteRangeCase(run, lo, pool, s, e, conc, plan) {
+							fired++
+						}
+					}
+				}
+			}
+		}
+	}
+	extra["delete_range_topology_cases"] = cases
+	extra["delete_range_topology_cases_with_region_error"] = fired
+}
+
+func contains(l []string, k string) bool {
+	for _, x := range l {
+		if x == k {
+			return true
+		}
+	}
+	return false
+}
+
+func deleteRangeCase(run *ev.Run, lo, pool []string, s, e string, conc int, plan []string) (fired bool) {
+	b := txnh.NewMockBackend(1, lo...)
+	w := txnh.NewWorld(b, 1)
+	defer w.Close()
+	st := w.Clients[0].Store
+	desc := fmt.Sprintf("layout=%v delete-range=[%q,%q) concurrency=%d split-before-delivery=%v", lo, s, e, conc, plan)
+	// one single-key transaction per key: nothing is committed in the background
+	for _, k := range pool {
+		txn, _ := st.Begin()
+		txn.Set([]byte(k), []byte("v"+k))
+		if err := txn.Commit(context.Background()); err != nil {
+			run.Note("delete-range seed commit failed: %v", err)
+			return false
+		}
+	}
+	var mu sync.Mutex
+	next := 0
+	w.BeforeRPC = func(c *txnh.Client, req *tikvrpc.Request) {
+		if req.Type != tikvrpc.CmdDeleteRange {
+			return
+		}
+		dr := req.DeleteRange()
+		mu.Lock()
+		defer mu.Unlock()
+		if next >= len(plan) {
+			return
+		}
+		k := plan[next]
+		if string(dr.StartKey) < k && (len(dr.EndKey) == 0 || k < string(dr.EndKey)) {
+			next++
+			b.SplitAt([]byte(k))
+		}
+	}
+	t := rangetask.NewDeleteRangeTask(st, []byte(s), []byte(e), conc)
+	err := t.Execute(context.Background())
+	mu.Lock()
+	fired = next > 0
+	w.BeforeRPC = nil
+	mu.Unlock()
+	if err != nil {
+		run.Violation("deleterange:error-after-split", desc+": "+err.Error(), desc)
+		return
+	}
+	ts, _ := st.CurrentTimestamp("global")
+	snap := st.GetSnapshot(ts)
+	for _, k := range pool {
+		_, gerr := snap.Get(context.Background(), []byte(k))
+		gone := tikverr.IsErrNotFound(gerr)
+		want := k >= s && (e == "" || k < e)
+		if gone != want {
+			run.Violation("deleterange:wrong-keys-removed:split-before-delivery", fmt.Sprintf("%s: key %q removed=%v, expected %v", desc, k, gone, want), desc)
+		}
+	}
+	return
 }
 
 // ---- part D: safe point ----
